@@ -265,9 +265,9 @@ impl Workdir {
         let _ = std::fs::remove_dir_all(&path);
         std::fs::create_dir_all(&path).unwrap();
         let w = Workdir { path };
-        w.write("char.def", &std::fs::read_to_string("/repo/sudachi/tests/resources/char.def").unwrap());
+        w.write("char.def", &std::fs::read_to_string("/repo/resources/char.def").unwrap());
         w.write("unk.def", &std::fs::read_to_string("/repo/sudachi/tests/resources/unk.def").unwrap());
-        w.write("rewrite.def", &std::fs::read_to_string("/repo/sudachi/tests/resources/rewrite.def").unwrap());
+        w.write("rewrite.def", &std::fs::read_to_string("/repo/resources/rewrite.def").unwrap());
         w
     }
     pub fn write(&self, name: &str, content: &str) {
